@@ -556,7 +556,18 @@ def _fall(fn):
     return f
 
 
-_PASSTHROUGH_ATTRS = {'errstate', 'seterr', 'dtype', 'iinfo', 'finfo', 'generic', 'vectorize',
+def vectorize(pyfunc, **kw):
+    """np.vectorize without output-dtype inference (the outputs may be symbolic)"""
+    def f(*args):
+        arrs = [_np.asarray(a, dtype=object) for a in args]
+        b = _np.broadcast(*arrs)
+        out = _np.empty(b.shape, dtype=object)
+        out.reshape(-1)[:] = [pyfunc(*vals) for vals in b]
+        return wrap(out)
+    return f
+
+
+_PASSTHROUGH_ATTRS = {'errstate', 'seterr', 'dtype', 'iinfo', 'finfo', 'generic',
                       'printoptions', 'set_printoptions', 'testing'}
 
 
